@@ -17,6 +17,8 @@ def c_op(o):
         return "GLeave %s %s %s" % (coq_N(o["c"]), coq_N(o["e"]), coq_N(o["res"]))
     if k == "sdel":
         return "GSDel %s %s %s" % (coq_N(o["s"]), coq_N(o["e"]), coq_N(o["res"]))
+    if k == "parts":
+        return "GParts %s %s" % (coq_N(o["s"]), cz(o["n"]))
     if k == "obs":
         rows = ["(%s, %s, [%s])" % (coq_N(c), coq_N(s), ";".join(cz(p) for p in ps)) for c, s, ps in (o["tbl"] or [])]
         return "GObs %s [%s] [%s]" % (coq_N(o["epoch"]), ";".join(coq_N(m) for m in (o["members"] or [])), "; ".join(rows))
@@ -68,7 +70,7 @@ def run(pid, tier, seed, replay):
                                  "first": [{"case": c, "op_index": j, "op": c["ops"][j]} for c, j in mism[:2]]})
     canon = set()
     for c in cases:
-        ops = [o for o in c["ops"] if o["op"] != "obs"]
+        ops = [o for o in c["ops"] if o["op"] not in ("obs", "parts")]
         multi = any(o["op"] == "join" and len(set(o["ss"])) > 1 for o in ops)
         kinds = set(o["op"] for o in ops if o["res"] == 0)
         if len(kinds) >= 2 and (multi or len(c["parts"]) == 1):
